@@ -107,6 +107,7 @@ func New(property, tier, level string) *Report {
 		knownHit:   map[string]int64{},
 		Exhaustive: true,
 		MaxViol:    25,
+		assume:     []string{"bbolt (storage engine) and the Go runtime are trusted"},
 	}
 	if s := os.Getenv("VERIF_MAXVIOL"); s != "" {
 		if v, err := strconv.Atoi(s); err == nil {
